@@ -74,6 +74,21 @@ func runC10(tier string) int {
 				fmt.Printf("[C10] %s: states=%d transitions=%d depth=%d/%d expired-states=%d swept=%d deadline=%v %.1fs\n", label, res.States, res.Transitions, res.Depth, depth, res.ExpiredObserved, res.SweepRemoved, res.DeadlineHit, time.Since(t0).Seconds())
 			}
 		}
+		// non-monotonic log clocks (skewed leaders), every command triple of every universe
+		if eng == "mem-skiplist" || !quick {
+			for _, u := range storevc.TTLUniverses() {
+				s := storemc.Open(storemc.Options{Engine: eng, Policy: common.WaitCompact, DataVer: common.ValueHeaderV1, Leader: true})
+				t0 := time.Now()
+				runs, ok := storevc.RunSkew(s, u, col, fmt.Sprintf("%s/wait_compact/%s/skew", eng, u.Name), dl)
+				s.Destroy()
+				trans += runs
+				if !ok {
+					exhaustive = false
+				}
+				per = append(per, map[string]interface{}{"search": eng + "/wait_compact/" + u.Name + "/non-monotonic-log-clocks", "command_triples": runs, "complete": ok, "wall_s": time.Since(t0).Seconds()})
+				fmt.Printf("[C10] %s/wait_compact/%s: non-monotonic log clocks: triples=%d complete=%v %.1fs\n", eng, u.Name, runs, ok, time.Since(t0).Seconds())
+			}
+		}
 		// local_deletion: scans never remove early
 		s := storemc.Open(storemc.Options{Engine: eng, Policy: common.LocalDeletion, DataVer: common.DefaultDataVer, Leader: true})
 		d := 3
